@@ -27,6 +27,7 @@ import NeoFS.Driver.FSTree
 import NeoFS.Driver.IR
 import NeoFS.Driver.Engine
 import NeoFS.Driver.ShardMode
+import NeoFS.Driver.SearchMerge
 open NeoFS NeoFS.Driver
 
 /-- State of all stateful models; pure models need none. -/
@@ -43,6 +44,7 @@ structure DState where
   fstree : NeoFS.Driver.FSt := {}
   eng : NeoFS.Engine.Eng := {}
   modes : NeoFS.ShardMode.St := {}
+  smerge : NeoFS.Driver.SMergeState := {}
   irn : NeoFS.IRNetmap.St := ⟨0, false, 0⟩
 
 def stepLine (s : DState) (line : String) : DState × String :=
@@ -65,6 +67,7 @@ def stepLine (s : DState) (line : String) : DState × String :=
   | "ir" => (s, irStep o)
   | "eng" => let (g, out) := engStep s.eng o; ({ s with eng := g }, out)
   | "modes" => let (m, out) := modesStep s.modes o; ({ s with modes := m }, out)
+  | "smerge" => let (e, out) := smergeStep s.smerge o; ({ s with smerge := e }, out)
   | "put" => (s, putStep o)
   | "validate" => (s, validateStep o)
   | "wcread" => let (w, out) := wcreadStep s.wcr o; ({ s with wcr := w }, out)
